@@ -219,6 +219,54 @@ func ruleC12b(c *Ctx) {
 		fn := call.Parent()
 		name := p.fname(fn)
 		arg := strip(call.Call.Args[0])
+		// a list nobody can change under the router's feet: a copy made for the purpose, a snapshot field that is kept
+		// in step (C11.l), replaced as a whole and never written in place (read under its lock), or what a module
+		// accessor returns if all it returns is of these kinds
+		var safeList func(v ssa.Value, depth int) bool
+		safeList = func(v ssa.Value, depth int) bool {
+			n := 0
+			for _, src := range p.sources(v, provOpt{ThroughCells: true}) {
+				src = strip(src)
+				n++
+				switch x := src.(type) {
+				case *ssa.MakeSlice:
+					continue
+				case *ssa.UnOp:
+					if fa, isFA := x.X.(*ssa.FieldAddr); isFA && x.Op == token.MUL {
+						f := fieldOfAddr(fa)
+						held := false
+						for _, m := range mutableFields(p, li) {
+							if m.Field == f && m.Lock != nil && li.heldAt(x)[m.Lock] != lockNone {
+								held = true
+							}
+						}
+						if held && p.derivedState().inStepBy[stateLoc{f: f}] && p.replacedAsAWhole(f) {
+							continue
+						}
+					}
+				case *ssa.Call:
+					if g := x.Call.StaticCallee(); g != nil && p.inModule(g) && g.Blocks != nil && depth < 2 {
+						all := true
+						for _, r := range returnsOf(g) {
+							if len(r.Results) != 1 || !safeList(r.Results[0], depth+1) {
+								all = false
+							}
+						}
+						if all {
+							continue
+						}
+					}
+				}
+				return false
+			}
+			return n > 0
+		}
+		if _, isDirect := arg.(*ssa.UnOp); safeList(arg, 0) && (!isDirect || li.heldAt(call)[nil] == lockNone) {
+			if _, f0, isLoad := fieldLoad(arg); !isLoad || f0.Name() != "webServices" {
+				c.ok(name, "SelectRoute on a snapshot or private copy of the service list", p.ipos(call), "the list is a copy made for this call, or a snapshot that every registration operation replaces as a whole and nobody writes in place, read under the lock")
+				continue
+			}
+		}
 		_, fld, ok := fieldLoad(arg)
 		if !ok {
 			// a private copy of the list, made by an accessor that reads the field under its lock only
@@ -247,6 +295,37 @@ func ruleC12b(c *Ctx) {
 				}
 				if nload > 0 && underLock && copies {
 					c.ok(name, "SelectRoute on a private copy of the service list", p.ipos(call), "the list is copied by "+p.fname(g)+" while it holds the lock; the selection runs on the copy")
+					continue
+				}
+			}
+			// a snapshot: a list kept in step with the service list (C11.l) that is replaced as a whole and never written
+			// in place, loaded under the lock; or a copy made in this function; or either of the two
+			{
+				okAll, nsrc := true, 0
+				for _, src := range p.sources(arg, provOpt{ThroughCells: true}) {
+					src = strip(src)
+					nsrc++
+					switch x := src.(type) {
+					case *ssa.MakeSlice:
+						continue
+					case *ssa.UnOp:
+						if fa, isFA := x.X.(*ssa.FieldAddr); isFA && x.Op == token.MUL {
+							f := fieldOfAddr(fa)
+							held := false
+							for _, m := range mutableFields(p, li) {
+								if m.Field == f && m.Lock != nil && li.heldAt(x)[m.Lock] != lockNone {
+									held = true
+								}
+							}
+							if held && p.derivedState().inStepBy[stateLoc{f: f}] && p.replacedAsAWhole(f) {
+								continue
+							}
+						}
+					}
+					okAll = false
+				}
+				if okAll && nsrc > 0 {
+					c.ok(name, "SelectRoute on a snapshot of the service list", p.ipos(call), "the list is a copy that every registration operation replaces as a whole and nobody writes in place, read under the lock")
 					continue
 				}
 			}
@@ -819,4 +898,48 @@ func ruleC12f(c *Ctx) {
 	if n == 0 {
 		c.triv("-", "no read-modify-write of a mutable field", "-", "nothing to decide")
 	}
+}
+
+// replacedAsAWhole: every store to the slice field is nil or a slice allocated by the storing function, and nothing
+// in the module writes an element of, or appends to, a value loaded from the field: holders of an old value see an
+// immutable list.
+func (p *Program) replacedAsAWhole(f *types.Var) bool {
+	ok := true
+	for _, fn := range p.SrcFunc {
+		eachInstr(fn, func(i ssa.Instruction) {
+			switch x := i.(type) {
+			case *ssa.Store:
+				if fa, isFA := x.Addr.(*ssa.FieldAddr); isFA && fieldOfAddr(fa) == f {
+					if isNilConst(x.Val) {
+						return
+					}
+					fresh := false
+					for _, src := range p.sources(x.Val, provOpt{ThroughCells: true}) {
+						if _, isMS := strip(src).(*ssa.MakeSlice); isMS {
+							fresh = true
+						} else {
+							fresh = false
+							break
+						}
+					}
+					if !fresh {
+						ok = false
+					}
+				}
+				// element store into a loaded value of the field
+				if ia, isIA := x.Addr.(*ssa.IndexAddr); isIA {
+					if _, lf, isL := fieldLoad(strip(ia.X)); isL && lf == f {
+						ok = false
+					}
+				}
+			case *ssa.Call:
+				if isBuiltinCall(x, "append") || isBuiltinCall(x, "copy") {
+					if _, lf, isL := fieldLoad(strip(x.Call.Args[0])); isL && lf == f {
+						ok = false
+					}
+				}
+			}
+		})
+	}
+	return ok
 }
